@@ -8,7 +8,7 @@ REQUIRED = ["CifModel.C19_list_is_sequence", "CifModel.C19_table_is_map", "CifMo
             "CifModel.C19_clone_disjoint", "CifModel.C19_put_copies", "CifModel.C19_remove_transfers",
             "CifModel.C19_remove_transfers_entry", "CifModel.C19_reinit_releases_heap", "CifModel.C19_capacity_growth",
             "CifModel.C16_map_heap_safe", "CifModel.C16_map_set_item_heap_safe", "CifModel.C16_map_remove_item_heap_safe",
-            "CifModel.C16_cex_F10_pinned", "CifModel.C19_clone_onto_repaired"]
+            "CifModel.C16_cex_F10_pinned", "CifModel.C19_clone_onto_repaired", "CifModel.C19_set_replaces_in_place"]
 GEN = ["ErrCodes", "ValueCols"]
 FAMILIES = ["val"]
 TRUSTED_BASE = [
@@ -29,8 +29,8 @@ PARTIAL = [
     "heap level: proved for clone (any depth), release (any depth, shared key blocks included), list insert with capacity "
     "growth, list remove with transfer of ownership, cif_map_set_item and cif_map_retrieve_item(do_remove) on whole standalone "
     "maps (refinement of the pure mapSet / mapErase), entry creation by cif_packet_create, re-spelling, detaching, release. "
-    "NOT stated at heap level: cif_value_set_element_at (model function listSetH; its specification is the composition of "
-    "cleanBuild_spec with an element-replacement lemma), cif_packet_create for a whole name list (per name: "
+    "list set in place, "
+    "NOT stated at heap level: cif_packet_create for a whole name list (per name: "
     "packetEntryCreate_spec), cif_map_get_keys (allocates an array of borrowed pointers), convert_to_standalone (unreachable "
     "through the public API: every map the API hands out is standalone), the aliasing cases of F32 (modelled at the pure "
     "level only), allocation failures (property C17)",
